@@ -5,6 +5,7 @@ From Coq Require Import List NArith Bool Arith Sorted.
 From Coq Require Import Strings.Byte.
 Require Import BS.Bytes BS.Common BS.Api BS.Layout BS.Format BS.FormatFacts BS.Spec BS.SpecStep.
 Require Import BS.FS BS.FSFacts BS.Meta BS.MetaFacts BS.Header BS.Reader BS.ReaderFacts BS.Index BS.Data BS.DataFacts BS.Seek BS.Series BS.SeriesFacts BS.ReadAllFacts BS.TotalFacts BS.CacheFacts BS.Sections BS.ExtractFacts BS.OpenFacts BS.TornGenFacts BS.CacheOpenFacts BS.CacheCreateFacts.
+Require Import BS.OverflowFacts.
 Import ListNotations.
 
 
@@ -102,3 +103,20 @@ Theorem C08_create_level : forall p fs name (B:N) src cb hdr ihdr l,
 Proof. exact ds_create_ok. Qed.
 Print Assumptions C08_create_level.
 (* partial: the state after a reopen with EXISTING caches that are not aligned (DownSampledData::open, repair) is C09: known finding D10. *)
+
+(* "no intermediate sum overflows for any timestamp magnitude": the model sums in unbounded N, the Rust in u128 (after the
+   repair of D9) and converts the mean back to u64. For a bucket of at most 2^64 lines (a usize count) with u64 timestamps
+   every intermediate value of the accumulator is below 2^128 and the mean is a u64 again, so the unbounded model and the
+   bounded code compute the same number; the mean lies between the smallest and the largest timestamp of the bucket *)
+Theorem C08_sums_fit_u128 : forall (xs:list N) k, Forall (fun x => (x < 2^64)%N) xs -> (N.of_nat (length xs) <= 2^64)%N ->
+  (sum_N (firstn k xs) < 2^128)%N.
+Proof. exact partial_sums_fit_u128. Qed.
+Print Assumptions C08_sums_fit_u128.
+Theorem C08_mean_fits_u64 : forall (xs:list N), xs <> [] -> Forall (fun x => (x < 2^64)%N) xs ->
+  (sum_N xs / N.of_nat (length xs) < 2^64)%N.
+Proof. exact mean_fits_u64. Qed.
+Print Assumptions C08_mean_fits_u64.
+Theorem C08_mean_between : forall (xs:list N) lo hi, xs <> [] -> Forall (fun x => (lo <= x <= hi)%N) xs ->
+  (lo <= sum_N xs / N.of_nat (length xs) <= hi)%N.
+Proof. exact mean_between. Qed.
+Print Assumptions C08_mean_between.
